@@ -19,6 +19,10 @@ ASSUMPTIONS = ["no shared mutable state other than the thread-local context (che
 def correspondence(ctx, batch):
     rng = ctx.rng("corr")
     registry = stages.make_registry()
+    # the reference context itself: nested injections, exceptions, several threads (J2M.Runtime.exec)
+    for _ in range(ctx.n(120, 1500)):
+        schedule = [[rng.choice([0, 0, 1, 2]), stages.gen_ctx_body(rng, rng.randint(1, 4))] for _ in range(rng.randint(1, 5))]
+        stages.stage_ctxexec(batch, schedule)
     for _ in range(ctx.n(60, 800)):
         c = _c06.gen_case(rng)
         stages.stage_render(batch, [tuple(x) for x in c["inputs"]], registry, worker.cmps_from(c["cmps"]), [c["job"]])
